@@ -1,7 +1,8 @@
 """C06 - nested parsing is transparent: directive bodies, fences, include, substitution.
 
 Metamorphic monitor over pairs of executions of the real code: render(W(X)) restricted to the wrapper's node must equal
-render(X) (pformat with line/source masked, system_message nodes compared separately as a multiset of warning texts).
+render(X) (pformat with line/source masked; system_message nodes are compared in place by level and text, and the warning stream
+as a multiset of warning texts).
 Wrappers: admonition-type directives (both fence kinds, both option styles, any fence length, nested 1-4 deep, inside
 quotes/lists), include of a file containing X, substitution whose value is X (block and inline position).  Second
 oracle: definitions made inside the wrapper (reference definition, footnote, target) must be usable from outside.
@@ -136,13 +137,20 @@ def canon(children):
 
     out = []
     for c in children:
-        if isinstance(c, (nodes.system_message, nodes.title)):
+        if isinstance(c, nodes.title):
+            continue
+        if isinstance(c, nodes.system_message) and "Duplicate reference definition" in c.astext():
+            continue  # reported once for the whole document when its rendering ends (after the last block, wrapped or not): not a node of X's place
+        if isinstance(c, nodes.system_message):
+            out.append("MESSAGE " + str(c.get("type")) + " " + re.sub(r"\s+", " ", c[0].astext() if len(c) else "") + "\n")
             continue
         c = c.deepcopy()
         drive.mask_lines(c) if isinstance(c, nodes.Element) else None
         if isinstance(c, nodes.Element):
             for sm in list(c.findall(nodes.system_message)):
-                sm.parent.remove(sm)
+                # a message node stays where the renderer put it: keep its place, level and text (ids / backrefs / lines are bookkeeping)
+                stub = nodes.comment("", "MESSAGE " + str(sm.get("type")) + " " + re.sub(r"\s+", " ", sm[0].astext() if len(sm) else ""))
+                sm.parent.replace(sm, stub)
             for e in list(c.findall(nodes.Element)):
                 merged = []
                 for ch in e.children:
